@@ -512,9 +512,13 @@ impl<D: Distance> Writer<D> {
 
         let target_n_trees = target_n_trees(options, self.dimensions as u64, &item_indices, &roots);
         self.delete_extra_trees(wtxn, options, &mut roots, target_n_trees)?;
+        #[cfg(arroy_verif)]
+        crate::verif::phase("delextra", wtxn, self.index, &roots);
 
         // Before taking any references on the DB, remove all the items we must remove.
         self.delete_items_from_trees(wtxn, options, &mut roots, &to_delete)?;
+        #[cfg(arroy_verif)]
+        crate::verif::phase("delitems", wtxn, self.index, &roots);
 
         // The next method is called from multiple place so we have to update the progress here
         (options.progress)(WriterProgress { main: MainStep::InsertItemsInCurrentTrees, sub: None });
@@ -527,6 +531,8 @@ impl<D: Distance> Writer<D> {
             nb_tree_nodes,
             &concurrent_node_ids,
         )?;
+        #[cfg(arroy_verif)]
+        crate::verif::phase("insert", wtxn, self.index, &roots);
         // Create a new descendant that contains all items for every missing trees
         let nb_missing_trees = target_n_trees.saturating_sub(roots.len() as u64);
         for _ in 0..nb_missing_trees {
@@ -540,6 +546,8 @@ impl<D: Distance> Writer<D> {
             )?;
         }
 
+        #[cfg(arroy_verif)]
+        crate::verif::phase("missing", wtxn, self.index, &roots);
         self.incremental_index_large_descendants(
             wtxn,
             rng,
@@ -547,6 +555,8 @@ impl<D: Distance> Writer<D> {
             concurrent_node_ids,
             large_descendants,
         )?;
+        #[cfg(arroy_verif)]
+        crate::verif::phase("split", wtxn, self.index, &roots);
 
         tracing::debug!("write the metadata...");
         (options.progress)(WriterProgress { main: MainStep::WriteTheMetadata, sub: None });
